@@ -27,6 +27,7 @@ type vestingMonitor struct {
 	preQuery                     map[string]map[string]string // owner -> pool -> withdrawable reported by the query before the tx
 	lineage                      map[string]vtypes.VestingAccountTrace
 	lineageInit                  bool
+	types0                       map[string]vtypes.VestingType // the vesting types as configured at genesis: no message can change them
 	evals                        int64
 	lastWithdrawOwner            string
 	lastWithdrawBlock            int
@@ -54,7 +55,7 @@ type vSnap struct {
 func takeVSnap(c *kernel.Chain, withStore bool) *vSnap {
 	ctx := c.Ctx()
 	s := &vSnap{pools: map[string]map[string]poolRec{}, traces: map[string]vtypes.VestingAccountTrace{}, now: c.Now}
-	s.denom = c.App.CfevestingKeeper.GetParams(ctx).Denom
+	s.denom = c.VestingParams().Denom
 	for _, avp := range c.App.CfevestingKeeper.GetAllAccountVestingPools(ctx) {
 		m := map[string]poolRec{}
 		for _, p := range avp.VestingPools {
@@ -96,6 +97,12 @@ func (m *vestingMonitor) Init(r *kernel.Run) {
 		m.lineage[t.Address] = t
 	}
 	m.lineageInit = true
+	m.types0 = map[string]vtypes.VestingType{}
+	for _, vt := range r.Chain.App.CfevestingKeeper.GetAllVestingTypes(r.Chain.Ctx()).VestingTypes {
+		if vt != nil {
+			m.types0[vt.Name] = *vt
+		}
+	}
 	m.checkState(r, takeVSnap(r.Chain, false), "after genesis")
 }
 
@@ -423,6 +430,9 @@ func (m *vestingMonitor) vestingTypeOf(r *kernel.Run, name string) (free *big.Ra
 	vt, err := r.Chain.App.CfevestingKeeper.GetVestingType(r.Chain.Ctx(), name)
 	if err != nil {
 		return nil, 0, 0, false
+	}
+	if v0, ok := m.types0[name]; ok {
+		vt = v0 // what was configured, not what a restart or an import may have made of it
 	}
 	return new(big.Rat).SetFrac(vt.Free.BigInt(), bigE18), vt.LockupPeriod, vt.VestingPeriod, true
 }
